@@ -3,6 +3,8 @@ package drpcconn
 import (
 	"context"
 
+	"storj.io/drpc/drpcerr"
+
 	"storj.io/drpc/drpcmanager"
 	"storj.io/drpc/drpcwire"
 	vrt "storj.io/drpc/internal/verifrt"
@@ -76,5 +78,83 @@ func VerifH_ClientNextRPC() {
 	} else {
 		vrt.Cover("client-closed")
 	}
+	conn.Close()
+}
+
+// VerifH_ClientNextRPCAfterRemoteEnd: client side. A write of RPC 1 is inside the transport
+// (a MsgSend of a streaming call, or the request write of a unary call with a tiny writer
+// buffer) when the server ends RPC 1 (error or close packet, handled by the reader
+// meanwhile). The write then completes, the application closes its stream (or the unary
+// call returns). The connection is open and healthy-looking, so a probe RPC must complete.
+func VerifH_ClientNextRPCAfterRemoteEnd() {
+	tr := &hx.Transport{}
+	gate := false
+	unary := vrt.Bool("unary")
+	wsize := 0
+	if unary || vrt.Bool("tinyWriterBuffer") {
+		wsize = 1
+	}
+	conn := NewWithOptions(tr, Options{Manager: drpcmanager.Options{SoftCancel: vrt.Bool("soft"), WriterBufferSize: wsize}})
+	enc := hx.ByteEnc{}
+	endByClose := vrt.Bool("remoteCloses")
+	remoteEnd := func() {
+		if endByClose {
+			tr.Feed(hx.Pkt(drpcwire.KindClose, 1, 1, false, nil))
+		} else {
+			tr.Feed(hx.Pkt(drpcwire.KindError, 1, 1, false, []byte{0, 0, 0, 0, 0, 0, 0, 9, 'n', 'o'}))
+		}
+	}
+	d1 := false
+	var err1 error
+	if unary {
+		tr.Gate = &gate
+		go func() {
+			in := []byte{1, 2, 3}
+			var out []byte
+			err1 = conn.Invoke(hx.NewCtx(), "rpc1", enc, &in, &out)
+			d1 = true
+		}()
+	} else {
+		st, err := conn.NewStream(hx.NewCtx(), "rpc1", enc)
+		vrt.Assert(err == nil, "RPC 1 starts")
+		tr.Gate = &gate
+		go func() {
+			m := []byte{1, 2, 3}
+			err1 = st.MsgSend(&m, enc)
+			_ = st.Close() // the application is done with the stream
+			d1 = true
+		}()
+	}
+	vrt.WaitFor(&tr.WParked)
+	vrt.Quiesce()
+	remoteEnd()
+	vrt.Quiesce() // the reader has handled the server's final packet
+	gate = true
+	tr.Gate = nil
+	vrt.Quiesce()
+	vrt.Assert(d1, "RPC 1 returns")
+	if unary {
+		vrt.Assert(err1 != nil, "a unary call ended by the server's error or close fails")
+		if err1 != nil && !endByClose {
+			vrt.Assert(drpcerr.Code(err1) == 9 && err1.Error() == "no", "the call fails with exactly the server's message and code, also when the error arrives while the request is still being written")
+		}
+	}
+	vrt.Assert(!hx.IsClosedCh(conn.Closed()), "the connection stays open")
+	if hx.IsClosedCh(conn.Closed()) {
+		return
+	}
+	tr.Feed(hx.Pkt(drpcwire.KindMessage, 2, 1, false, []byte{0x42}))
+	tr.Feed(hx.Pkt(drpcwire.KindCloseSend, 2, 2, false, nil))
+	in := []byte{9}
+	var resp []byte
+	var perr error
+	pdone := false
+	go func() { perr = conn.Invoke(hx.NewCtx(), "probe", enc, &in, &resp); pdone = true }()
+	vrt.Quiesce()
+	vrt.Assert(pdone, "the probe RPC on the healthy-looking connection completes")
+	if pdone {
+		vrt.Assert(perr == nil && len(resp) == 1 && resp[0] == 0x42, "the probe RPC gets its response")
+	}
+	vrt.Cover("client-remote-end-probe")
 	conn.Close()
 }
